@@ -35,7 +35,7 @@ CHECK_DEADLOCK FALSE
 
 TIERS = {
     "quick": dict(K=3, MaxP=3, MaxN=3, Easy="EasyQuick"),
-    "thorough": dict(K=4, MaxP=4, MaxN=3, Easy="EasyThorough"),
+    "thorough": dict(K=4, MaxP=3, MaxN=3, Easy="EasyThorough"),
 }
 
 
